@@ -14,15 +14,15 @@ cd /verif
 ID=$1; shift
 TIER=${VERIF_TIER:-quick}
 if [ $# -gt 0 ] && [ "${1#--}" = "$1" ]; then TIER=$1; shift; fi
-MAPORDER=""; VOS=""
-# scripts/groups.txt: <ID> <cmd dir under /verif/cmd> [<maporder pkgs>|-] [<vos files>|-]
+MAPORDER=""; VOS=""; YIELD=""
+# scripts/groups.txt: <ID> <cmd dir under /verif/cmd> [<maporder pkgs>|-] [<vos files>|-] [<yield pkgs>|-]
 LINE=$(grep -E "^$ID[[:space:]]" scripts/groups.txt | head -1)
 if [ -n "${VERIF_GROUP:-}" ]; then
-  GROUP=$VERIF_GROUP; MAPORDER=${VERIF_MAPORDER:-}; VOS=${VERIF_VOS:-}
+  GROUP=$VERIF_GROUP; MAPORDER=${VERIF_MAPORDER:-}; VOS=${VERIF_VOS:-}; YIELD=${VERIF_YIELD:-}
 elif [ -n "$LINE" ]; then
-  read -r _ GROUP MAPORDER VOS <<< "$LINE"
-  MAPORDER=${MAPORDER:--}; VOS=${VOS:--}
-  [ "$MAPORDER" = "-" ] && MAPORDER=""; [ "$VOS" = "-" ] && VOS=""
+  read -r _ GROUP MAPORDER VOS YIELD <<< "$LINE"
+  MAPORDER=${MAPORDER:--}; VOS=${VOS:--}; YIELD=${YIELD:--}
+  [ "$MAPORDER" = "-" ] && MAPORDER=""; [ "$VOS" = "-" ] && VOS=""; [ "$YIELD" = "-" ] && YIELD=""
 else
   echo "unknown property $ID" >&2; exit 2
 fi
@@ -41,9 +41,9 @@ if [ "$REPO" != "/repo" ]; then
 fi
 OV=.gen/overlay-$GROUP-$TAG
 OVFLAG=""
-if [ -n "${MAPORDER}${VOS}" ]; then
-  [ -x .bin/rewrite ] || go build -o .bin/rewrite ./cmd/rewrite || { echo "HARNESS-ERROR: cannot build rewrite" >&2; exit 2; }
-  .bin/rewrite -repo "$REPO/rolling-shutter" -maporder "$MAPORDER" -vos "$VOS" -out "$OV" > "$OUT/logs/$ID-rewrite.log" 2>&1 || { cat "$OUT/logs/$ID-rewrite.log" >&2; echo "HARNESS-ERROR: seam generation failed (does the repository compile?)" >&2; exit 2; }
+if [ -n "${MAPORDER}${VOS}${YIELD}" ]; then
+  [ -x .bin/rewrite ] && [ .bin/rewrite -nt cmd/rewrite/main.go ] || go build -o .bin/rewrite ./cmd/rewrite || { echo "HARNESS-ERROR: cannot build rewrite" >&2; exit 2; }
+  .bin/rewrite -repo "$REPO/rolling-shutter" -maporder "$MAPORDER" -vos "$VOS" -yield "$YIELD" -out "$OV" > "$OUT/logs/$ID-rewrite.log" 2>&1 || { cat "$OUT/logs/$ID-rewrite.log" >&2; echo "HARNESS-ERROR: seam generation failed (does the repository compile?)" >&2; exit 2; }
   OVFLAG="-overlay $OV/overlay.json"
 fi
 BIN=.bin/$GROUP-$ID-$TAG
